@@ -28,14 +28,12 @@ ASSUMPTIONS = ['domain of the property: distinct alphabet letters, letters of th
                'count_kmers is observed where |A|^k <= 300 (its label list is built for every possible k-mer)',
                'rolling_window(mode="same"), RegexMatcher / match_regexp and get_motif_scores_old are not reachable from the observed API '
                '(get_kmers, get_minimizers, match_string, get_motif_scores, count_kmers, KmerEncoding.encode/to_string) and are outside the check']
-PARTIAL = ['C13_model_agrees_implies_property_dense_partial: for equal-length sequences handed over as a dense 2-d array the link model_ok -> spec_ok '
-           'excludes get_motif_scores on a 2-d array and get_kmers on an un-encoded 2-d array, which at /repo HEAD treat the array as one row '
-           '(C13_dense_routes_refuted; findings C13-motif-2d-flat, C13-kmers-unencoded-2d-flat; repairs notes/C13.fix-2.diff, fix-3.diff). '
-           'For ragged collections (the property quantifier) C13_model_agrees_implies_property is full strength: every window >= 1, all operations',
-           'C13_*_partial about stop_pinned (the column slice before /repo c9f70fe) are history: window >= 2; the code now in /repo is stop_fixed '
-           '(bridged from the source by C13_source_tie) and is covered for every window >= 1 by the un-suffixed theorems',
+PARTIAL = ['C13_*_partial about stop_pinned (the column slice before /repo c9f70fe) and C13_dense_routes_refuted (2-d input before /repo 56c9986 / '
+           'd2972ec) are history; the code now in /repo is covered at full strength: C13_model_agrees_implies_property holds for every case in the '
+           'domain, every window >= 1, every input form, all ten operations',
            'npstructures (ragged column slice, BitArray.pack/sliding_window) is modelled from its source, not verified; '
-           'C13_packed_eq_generic is about that register-level model, tied to the installed library by the correspondence only']
+           'C13_packed_eq_generic is about that register-level model, tied to the installed library by the correspondence only',
+           'real-valued motif matrices: exact theorem over rationals (C13_motif_scores_rational); floats and logarithms only by the tolerance test']
 PER_FILE = 40
 
 ALPHS = [('dna', 'ACGT'), ('custom', 'ACGTN'), ('custom', 'ACTG'), ('amino', 'ACDEFGHIKLMNPQRSTVWY*'),
